@@ -4,7 +4,7 @@ from contracts import core, lists, spellings
 from pyvc.report import Report
 from pyvc import frag, front
 from pyvc.frag import ex as X, FLAGS
-from .common import run_fragments
+from .common import run_fragments, dependency_layer
 from . import wiring
 
 
@@ -63,4 +63,5 @@ def run(tier, seed):
     rep.functions.update(['sourcer.expressions.list._check_min_and_max_len', 'sourcer.expressions.sugar.Some',
                           'sourcer.translator._create_parsing_expression (Repeat / Sep branches)'])
     rep.assumptions.append('data-dependent bounds are non-negative integers (property: "all integer bounds 0..k")')
+    dependency_layer(rep, tier)
     return rep.finish()
